@@ -64,7 +64,7 @@ def subst(arg, w):
 
 def default_execute(scn, ctx, timeout=10.0, digests=False):
     env = scn.get("env", {}) or {}
-    w, snap = ctx.world(scn["world"], env.get("config"), digests=digests)
+    w, snap = ctx.world(scn["world"], env.get("config"), digests=digests or bool(scn.get("digests")))
     cwd = w.paths[env.get("cwd", 0)]
     obs = {}
     for run in scn["runs"]:
@@ -87,6 +87,7 @@ def default_execute(scn, ctx, timeout=10.0, digests=False):
         obs[run["tag"]] = o
     rec = dict(scn)
     rec["snapshot"] = snap
+    rec["root"] = os.path.realpath(w.paths[0])
     rec["obs"] = obs
     return rec
 
